@@ -1,4 +1,6 @@
 import TextxVerif.Proofs.Imp
+import TextxVerif.Proofs.ImpErr
+import TextxVerif.Proofs.ImpOpen
 /-!
 # C25 — grammar imports resolve rules in the documented order
 
@@ -23,8 +25,9 @@ grammar file (import statements, one class per rule, second pass).
 
 All statements hold for every file system `fs` (any import graph: nested
 directories, diamonds, cycles, self-imports, repeated imports, missing files),
-every `main` and every fuel; a run that stops with an error has no final state and
-the theorems say nothing about it (the grammar does not load).  Only property
+every `main` and every fuel.  The first group of theorems is about runs that return a
+final state; what a run that stops with an error says about the files, and when a run cannot
+stop with an error, is the last section ("The error side").  Only property
 theorems and non-vacuity examples live here; lemmas are in `Proofs/Imp.lean`.
 -/
 namespace Imp
@@ -231,7 +234,7 @@ def exRank (ns : Ns) : Nat :=
   if ns = ["m"] then 3 else if ns = ["b"] then 2 else if ns = ["sub", "c"] then 1 else 0
 
 /-- the hypotheses of `C25_lookup` are met: the graph is acyclic and the load succeeds … -/
-example : Acyclic exFS := by
+theorem exFS_acyclic : Acyclic exFS := by
   apply acyclic_of_rank exRank
   rintro a b ⟨f, hf, hb⟩
   unfold exFS at hf
@@ -325,5 +328,391 @@ theorem C25_lookup_cyclic_false :
       cases hs
       rw [hcl] at hden
       simp [Denotes] at hden
+
+/-! ## The error side: what a failed load says about the files, and when loading cannot fail
+
+A run of `loadMain` that does not return a state stops with `missing x` (`open()` fails:
+`FileNotFoundError`), with `unexisting ns r` (`TextXSemanticError` "Unexisting rule" / "Unknown
+class/rule") or — in the model only — for lack of fuel (`C25_terminates`).  `Connected fs main x`:
+`x` is the main file or reachable from it through import statements.  `docResolvable fs x f r`
+(executable, `Imp.lean`): reference `r` of file `x` is resolvable by the documentation — an
+unqualified name has a documented resolution, a qualified name names the file itself or one of its
+direct imports and that file defines the rule. -/
+
+/-- **Missing file, soundness.**  A load that stops with "file `x` not found" was given a file
+system without `x`, and `x` is the main file or named by an import statement of a file connected
+to the main file — whatever the import graph. -/
+theorem C25_missing_sound {fs : FS} {fuel : Nat} {main : Seg} {x : Ns}
+    (h : loadMain fs fuel main = .error (.missing x)) : fs x = none ∧ Connected fs main x := by
+  obtain ⟨h1, anc, hch, hs⟩ := loadMain_err h
+  exact ⟨h1, connected_of_chain hch hs⟩
+
+/-- **Unexisting rule, soundness, all import graphs.**  A load that stops with "unexisting rule
+`r` in file `ns`": `ns` is at the end of a path `ns :: anc` of import statements from the main
+file (no file twice), `r` is written in a rule of file `ns`, and `r` cannot be resolved with the
+files `anc` (still being loaded) invisible: unqualified — `specResolve … anc r = none`; qualified
+`q.X` with `q` the file itself or a direct import that is not in `anc` — file `q` has no rule `X`.
+The error is never about the name of a rule of the file itself. -/
+theorem C25_unexisting_general {fs : FS} {fuel : Nat} {main : Seg} {ns : Ns} {r : Ref}
+    (h : loadMain fs fuel main = .error (.unexisting ns r)) :
+    ∃ anc f rule, Chain fs (ns :: anc) ∧ [[main]] <:+ (ns :: anc) ∧ (ns :: anc).Nodup ∧
+      fs ns = some f ∧ rule ∈ f.rules ∧ r ∈ rule.refs ∧ Unres fs ns anc r :=
+  loadMain_err h
+
+/-- The reviewer's statement at full strength: an "unexisting rule" error of an acyclic tree is
+about a reference without documented resolution.  It is **false** for qualified names
+(`C25_unexisting_sound_full_false`): `docResolve` of a qualified name only asks whether the named
+file defines the rule, but the loader finds the named file only when it is loaded already. -/
+def C25_unexisting_sound_full : Prop :=
+  ∀ (fs : FS) (fuel : Nat) (main : Seg) (ns : Ns) (r : Ref),
+    loadMain fs fuel main = .error (.unexisting ns r) → Acyclic fs → docResolve fs ns r = none
+
+/-- **Unexisting rule, soundness (acyclic).**  When no file imports itself, an "unexisting rule
+`r` in file `ns`" error means: `ns` is connected to the main file, `r` is written in a rule of
+`ns`, and `r` is not resolvable by the documentation (`docResolvable … = false`); in particular
+an unqualified `r` has no documented resolution, and neither has a qualified `r` naming the file
+itself or one of its direct imports.  Missing for `C25_unexisting_sound_full`: qualified names of
+files the referring file does not import directly (false there, see the witness below). -/
+theorem C25_unexisting_sound_partial {fs : FS} {fuel : Nat} {main : Seg} {ns : Ns} {r : Ref}
+    (h : loadMain fs fuel main = .error (.unexisting ns r)) (hac : Acyclic fs) :
+    Connected fs main ns ∧ ∃ f rule, fs ns = some f ∧ rule ∈ f.rules ∧ r ∈ rule.refs ∧
+      docResolvable fs ns f r = false ∧
+      (r.qual = none → docResolve fs ns r = none) ∧
+      (∀ q, r.qual = some q → q = ns ∨ q ∈ absImports ns f → docResolve fs ns r = none) := by
+  obtain ⟨anc, f, rule, hch, hs, _, hf, hrule, hr, hun⟩ := loadMain_err h
+  obtain ⟨hn, hd⟩ := acyclic_imports_not_anc hac hf hch
+  have hno := hun.not_docResolvable hf hn hd
+  refine ⟨connected_of_chain hch hs, f, rule, hf, hrule, hr, hno, ?_, ?_⟩
+  · intro hq
+    simpa [docResolvable, hq] using hno
+  · intro q hq hdir
+    unfold Unres at hun
+    rw [hq] at hun
+    simp only at hun
+    have hqa : q ∉ anc := by
+      rcases hdir with e | hm
+      · rw [e]; exact hn
+      · exact hd q hm
+    simp [docResolve, specResolve, hq, hun f hf hdir hqa]
+
+/-- **Resolvable ⇒ loads (acyclic).**  If no file imports itself, every file connected to the main
+file exists and every rule reference written in those files is resolvable by the documentation,
+then the grammars load (given fuel beyond the number of files, `C25_terminates`).  With
+`C25_lookup`, `C25_qualified` this fixes what every reference resolves to. -/
+theorem C25_loads (fs : FS) (files : List Ns) (hfs : ∀ x, (fs x).isSome → x ∈ files)
+    (fuel : Nat) (hfuel : files.length < fuel) (main : Seg) (hac : Acyclic fs)
+    (hex : ∀ x, Connected fs main x → (fs x).isSome)
+    (hres : ∀ x f, Connected fs main x → fs x = some f →
+      ∀ rule ∈ f.rules, ∀ r ∈ rule.refs, docResolvable fs x f r = true) :
+    ∃ st, loadMain fs fuel main = .ok st := by
+  cases h : loadMain fs fuel main with
+  | ok st => exact ⟨st, rfl⟩
+  | error e =>
+    exfalso
+    cases e with
+    | fuel => exact (C25_terminates fs files hfs fuel hfuel main).1 h
+    | nostack => exact (C25_terminates fs files hfs fuel hfuel main).2 h
+    | missing x =>
+      obtain ⟨h1, hc⟩ := C25_missing_sound h
+      have := hex x hc
+      rw [h1] at this
+      simp at this
+    | unexisting ns r =>
+      obtain ⟨hc, f, rule, hf, hrule, hr, hno, _⟩ := C25_unexisting_sound_partial h hac
+      have := hres ns f hc hf rule hrule r hr
+      rw [hno] at this
+      cases this
+
+/-- **Resolvable ⇒ loads, all import graphs.**  The same without acyclicity: it suffices that
+every reference is resolvable on every path of import statements from the main file that reaches
+its file, with the files on that path invisible (`ResolvableNow`). -/
+theorem C25_loads_general (fs : FS) (files : List Ns) (hfs : ∀ x, (fs x).isSome → x ∈ files)
+    (fuel : Nat) (hfuel : files.length < fuel) (main : Seg)
+    (hex : ∀ x, Connected fs main x → (fs x).isSome)
+    (hres : ∀ x anc f, Chain fs (x :: anc) → [[main]] <:+ (x :: anc) → (x :: anc).Nodup →
+      fs x = some f → ∀ rule ∈ f.rules, ∀ r ∈ rule.refs, ResolvableNow fs x anc f r) :
+    ∃ st, loadMain fs fuel main = .ok st := by
+  cases h : loadMain fs fuel main with
+  | ok st => exact ⟨st, rfl⟩
+  | error e =>
+    exfalso
+    cases e with
+    | fuel => exact (C25_terminates fs files hfs fuel hfuel main).1 h
+    | nostack => exact (C25_terminates fs files hfs fuel hfuel main).2 h
+    | missing x =>
+      obtain ⟨h1, hc⟩ := C25_missing_sound h
+      have := hex x hc
+      rw [h1] at this
+      simp at this
+    | unexisting ns r =>
+      obtain ⟨anc, f, rule, hch, hs, hnd, hf, hrule, hr, hun⟩ := C25_unexisting_general h
+      exact (hres ns anc f hch hs hnd hf rule hrule r hr).not_unres hf hun
+
+/-- **Executable criterion.**  `docLoadable fs S main` (a Boolean computed from the files: `S`
+contains the main file and is closed under import statements, all files of `S` exist, every
+reference in them is `docResolvable`) implies that the grammars load when the graph is acyclic. -/
+theorem C25_loads_check (fs : FS) (files : List Ns) (hfs : ∀ x, (fs x).isSome → x ∈ files)
+    (fuel : Nat) (hfuel : files.length < fuel) (main : Seg) (hac : Acyclic fs)
+    (S : List Ns) (hS : docLoadable fs S main = true) : ∃ st, loadMain fs fuel main = .ok st := by
+  have key := docLoadable_spec hS
+  apply C25_loads fs files hfs fuel hfuel main hac
+  · intro x hx
+    obtain ⟨f, hf, _⟩ := key x hx
+    simp [hf]
+  · intro x f hx hf
+    obtain ⟨f', hf', hall⟩ := key x hx
+    rw [hf] at hf'; cases hf'
+    exact hall
+
+/-- **Every connected file is loaded.**  After a successful load every file connected to the main
+file by import statements exists, has exactly one class per rule (in rule order), one recorded
+entry per rule, and each of its rules is found under its qualified name, `metamodel["x.n"]`,
+by a class reporting that file and rule — whatever the import graph. -/
+theorem C25_connected_loaded {fs : FS} {fuel : Nat} {main : Seg} {st : St}
+    (h : loadMain fs fuel main = .ok st) (x : Ns) (hx : Connected fs main x) :
+    ∃ f, fs x = some f ∧ clsNames st.classes x = f.rules.map (·.name) ∧
+      resRules st.resolved x = f.rules ∧
+      ∀ n, f.defines n = true →
+        ∃ c, getItem st ⟨some x, n⟩ = some (.cls c) ∧ st.classes[c]? = some (x, n) := by
+  obtain ⟨hinv, _, _⟩ := loadMain_inv h
+  have hk := loadMain_connected_key h x hx
+  rcases hinv.keys x hk with hE | ⟨f, d, hf, hd, hdict, hdom, _, hc⟩
+  · simp at hE
+  · obtain ⟨f', hf', hr⟩ := (loadMain_resInv h).done x hk (by simp)
+    rw [hf] at hf'; cases hf'
+    refine ⟨f, hf, hc, hr, ?_⟩
+    intro n hdef
+    have hdn : (d n).isSome = true := by rw [hdom n]; exact hdef
+    obtain ⟨c, hc'⟩ := Option.isSome_iff_exists.1 hdn
+    exact ⟨c, by simp [getItem, hd, hc'], hdict n c hc'⟩
+
+/-- **Loads ⇒ resolvable (acyclic).**  Conversely, when an acyclic tree loads, every file connected
+to the main file exists, every unqualified reference written in it has a documented resolution
+and every qualified reference names a file that defines the rule. -/
+theorem C25_loaded_resolvable {fs : FS} {fuel : Nat} {main : Seg} {st : St}
+    (h : loadMain fs fuel main = .ok st) (hac : Acyclic fs) (x : Ns) (hx : Connected fs main x) :
+    ∃ f, fs x = some f ∧ ∀ rule ∈ f.rules, ∀ r ∈ rule.refs,
+      (docResolve fs x r).isSome = true ∧ (∀ q, r.qual = some q → fsDefines fs q r.name = true) := by
+  obtain ⟨f, hf, _, hr, _⟩ := C25_connected_loaded h x hx
+  refine ⟨f, hf, ?_⟩
+  intro rule hrule r hrr
+  have hmem : rule ∈ resRules st.resolved x := by rw [hr]; exact hrule
+  simp only [resRules, List.mem_map, List.mem_filter, decide_eq_true_eq] at hmem
+  obtain ⟨e, ⟨he, hens⟩, herule⟩ := hmem
+  have h1 := C25_lookup h hac e he
+  have h2 := C25_qualified h e he
+  rw [herule] at h1 h2
+  rw [hens] at h1
+  obtain ⟨t, _, ht⟩ := h1.of_mem r hrr
+  obtain ⟨t2, _, ht2⟩ := h2.of_mem r hrr
+  have hqd : ∀ q, r.qual = some q → fsDefines fs q r.name = true := fun q hq => (ht2 q hq).2
+  refine ⟨?_, hqd⟩
+  cases hq : r.qual with
+  | none =>
+    obtain ⟨s, hs, _⟩ := ht hq
+    rw [hs]; rfl
+  | some q =>
+    simp [docResolve, specResolve, hq, hqd q hq]
+
+/-- **Loading, characterised on the files.**  For an acyclic tree whose qualified names name the
+referring file or one of its direct imports (the documented use): the grammars load **iff** every
+file connected to the main file exists and every rule reference in those files has a documented
+resolution. -/
+theorem C25_load_iff (fs : FS) (files : List Ns) (hfs : ∀ x, (fs x).isSome → x ∈ files)
+    (fuel : Nat) (hfuel : files.length < fuel) (main : Seg) (hac : Acyclic fs)
+    (hqual : ∀ x f, Connected fs main x → fs x = some f → ∀ rule ∈ f.rules, ∀ r ∈ rule.refs,
+      ∀ q, r.qual = some q → q = x ∨ q ∈ absImports x f) :
+    (∃ st, loadMain fs fuel main = .ok st) ↔
+    (∀ x, Connected fs main x → ∃ f, fs x = some f ∧
+      ∀ rule ∈ f.rules, ∀ r ∈ rule.refs, (docResolve fs x r).isSome = true) := by
+  constructor
+  · rintro ⟨st, h⟩ x hx
+    obtain ⟨f, hf, hall⟩ := C25_loaded_resolvable h hac x hx
+    exact ⟨f, hf, fun rule hrule r hr => (hall rule hrule r hr).1⟩
+  · intro hall
+    apply C25_loads fs files hfs fuel hfuel main hac
+    · intro x hx
+      obtain ⟨f, hf, _⟩ := hall x hx
+      simp [hf]
+    · intro x f hx hf rule hrule r hr
+      obtain ⟨f', hf', hres⟩ := hall x hx
+      rw [hf] at hf'; cases hf'
+      have hs := hres rule hrule r hr
+      unfold docResolvable
+      cases hq : r.qual with
+      | none => exact hs
+      | some q =>
+        have hdir := hqual x f hx hf rule hrule r hr q hq
+        have hdef : fsDefines fs q r.name = true := by
+          cases hd : fsDefines fs q r.name with
+          | true => rfl
+          | false => simp [docResolve, specResolve, hq, hd] at hs
+        have hd1 : (decide (q = x) || (absImports x f).contains q) = true := by
+          rcases hdir with e | hm
+          · simp [e]
+          · simp [hm]
+        simp only [hd1, hdef, Bool.and_self]
+
+/-- **Exactly the connected files are opened, each once.**  After a successful load the files
+handed to the loader are precisely the main file and the files reachable from it through import
+statements — whatever the import graph —, no file is opened twice, a namespace exists exactly
+for those files, and every class ever created belongs to one of them. -/
+theorem C25_opened_exact {fs : FS} {fuel : Nat} {main : Seg} {st : St}
+    (h : loadMain fs fuel main = .ok st) :
+    (∀ x, x ∈ st.opened ↔ Connected fs main x) ∧ st.opened.Nodup ∧
+    (∀ x, (st.nss x).isSome = true ↔ Connected fs main x) ∧
+    (∀ (c : Nat) (x : Ns) (n : Name), st.classes[c]? = some (x, n) → Connected fs main x) := by
+  obtain ⟨hinv, _, _⟩ := loadMain_inv h
+  obtain ⟨hko, hoc⟩ := loadMain_opened h
+  have hck := loadMain_connected_key h
+  refine ⟨fun x => ⟨hoc x, fun hx => hko x (hck x hx)⟩, hinv.openedNodup,
+    fun x => ⟨fun hx => hoc x (hko x hx), hck x⟩, ?_⟩
+  intro c x n hc
+  have hmem : n ∈ clsNames st.classes x := mem_clsNames.2 (List.mem_of_getElem? hc)
+  have hk : isKey st x := by
+    apply Classical.byContradiction
+    intro hk
+    rw [hinv.nonkey x hk] at hmem
+    simp at hmem
+  exact hoc x (hko x hk)
+
+/-! ### Non-vacuity of the error side -/
+
+/-- the hypotheses of `C25_loads` / `C25_loads_check` / `C25_load_iff` are met by `exFS`
+(`docLoadable` implies `hex`, `hres` and `hqual` via `docLoadable_spec`) … -/
+example : docLoadable exFS [["m"], ["b"], ["sub", "c"], ["sub", "d"]] "m" = true := by decide +kernel
+
+theorem exFS_files : ∀ x, (exFS x).isSome → x ∈ [["m"], ["b"], ["sub", "c"], ["sub", "d"]] := by
+  intro x hx
+  unfold exFS at hx
+  split at hx
+  · simp_all
+  · split at hx
+    · simp_all
+    · split at hx
+      · simp_all
+      · split at hx
+        · simp_all
+        · simp at hx
+
+/-- … so the criterion predicts that it loads (it does: see the evaluated examples above) -/
+example : ∃ st, loadMain exFS 5 "m" = .ok st :=
+  C25_loads_check exFS _ exFS_files 5 (by decide) "m" exFS_acyclic _
+    (by decide +kernel : docLoadable exFS [["m"], ["b"], ["sub", "c"], ["sub", "d"]] "m" = true)
+
+/-- `m` imports `b`; `Main` refers to `X` (in `b`) and to `Y`, which nobody defines; `gone` is
+imported by nobody.  No import cycle. -/
+def errFS : FS := fun ns =>
+  if ns = ["m"] then some ⟨[["b"]], [⟨"Main", [⟨none, "X"⟩, ⟨none, "Y"⟩]⟩]⟩
+  else if ns = ["b"] then some ⟨[], [⟨"X", []⟩]⟩
+  else none
+
+theorem noImports_acyclic {fs : FS} (h : ∀ a f, fs a = some f → ∀ b ∈ absImports a f, ∀ g, fs b = some g → g.imports = []) :
+    Acyclic fs := by
+  intro a hr
+  have key : ∀ a b, Reach fs a b → ∀ f, fs a = some f → ∀ g, fs b = some g → g.imports = [] := by
+    intro a b hr
+    induction hr with
+    | single e =>
+      obtain ⟨f, hf, hb⟩ := e
+      intro f' hf' g hg
+      rw [hf] at hf'; cases hf'
+      exact h _ f hf _ hb g hg
+    | step e hr ih =>
+      obtain ⟨f, hf, hb⟩ := e
+      intro f' hf' g hg
+      cases hr with
+      | single e2 =>
+        obtain ⟨f2, hf2, _⟩ := e2
+        exact ih f2 hf2 g hg
+      | step e2 _ =>
+        obtain ⟨f2, hf2, _⟩ := e2
+        exact ih f2 hf2 g hg
+  cases hr with
+  | single e =>
+    obtain ⟨f, hf, hb⟩ := e
+    have := h a f hf a hb f hf
+    simp [absImports, this] at hb
+  | step e hr' =>
+    obtain ⟨f, hf, hb⟩ := e
+    have := key a a (.step ⟨f, hf, hb⟩ hr') f hf f hf
+    simp [absImports, this] at hb
+
+theorem errFS_acyclic : Acyclic errFS := by
+  apply noImports_acyclic
+  intro a f hf b hb g hg
+  unfold errFS at hf
+  split at hf
+  · rename_i ha
+    subst ha
+    cases hf
+    simp [absImports, absImport] at hb
+    subst hb
+    simp [errFS] at hg
+    subst hg; rfl
+  · split at hf
+    · cases hf; simp [absImports] at hb
+    · cases hf
+
+/-- the error of a run (states contain functions, so runs are compared through this projection) -/
+def errOf : Except Err St → Option Err
+  | .error e => some e
+  | .ok _ => none
+
+theorem errOf_eq_some {r : Except Err St} {e : Err} (h : errOf r = some e) : r = .error e := by
+  cases r with
+  | error e' => simp [errOf] at h; rw [h]
+  | ok _ => simp [errOf] at h
+
+/-- the hypotheses of `C25_unexisting_sound_partial` / `C25_unexisting_general` are met … -/
+example : loadMain errFS 3 "m" = .error (.unexisting ["m"] ⟨none, "Y"⟩) :=
+  errOf_eq_some (by decide +kernel)
+
+/-- … and indeed `Y` has no documented resolution in `m`, while `X` has -/
+example : docResolve errFS ["m"] ⟨none, "Y"⟩ = none ∧
+    docResolve errFS ["m"] ⟨none, "X"⟩ = some (.rule ["b"] "X") := by decide +kernel
+
+/-- the hypothesis of `C25_missing_sound` is met: `m` imports `lib.gone`, which does not exist -/
+example : loadMain (fun ns => if ns = ["m"] then some ⟨[["lib", "gone"]], []⟩ else none) 3 "m" =
+    .error (.missing ["lib", "gone"]) := errOf_eq_some (by decide +kernel)
+
+/-- `m` refers to `c.X` without importing `c`; `c` exists and defines `X` -/
+def qualFS : FS := fun ns =>
+  if ns = ["m"] then some ⟨[], [⟨"Main", [⟨some ["c"], "X"⟩]⟩]⟩
+  else if ns = ["c"] then some ⟨[], [⟨"X", []⟩]⟩
+  else none
+
+theorem qualFS_acyclic : Acyclic qualFS := by
+  apply noImports_acyclic
+  intro a f hf b hb g hg
+  unfold qualFS at hf
+  split at hf
+  · cases hf; simp [absImports] at hb
+  · split at hf
+    · cases hf; simp [absImports] at hb
+    · cases hf
+
+/-- The full statement is false: `docResolve` of the qualified name `c.X` is `c`'s rule, yet the
+load stops with "unexisting rule" because `c` was never loaded (`m` does not import it). -/
+theorem C25_unexisting_sound_full_false : ¬ C25_unexisting_sound_full := by
+  intro hall
+  have h1 : loadMain qualFS 3 "m" = .error (.unexisting ["m"] ⟨some ["c"], "X"⟩) :=
+    errOf_eq_some (by decide +kernel)
+  have h2 := hall qualFS 3 "m" ["m"] ⟨some ["c"], "X"⟩ h1 qualFS_acyclic
+  have h3 : docResolve qualFS ["m"] ⟨some ["c"], "X"⟩ = some (.rule ["c"] "X") := by decide +kernel
+  rw [h3] at h2
+  cases h2
+
+/-- `C25_loads_general` is not vacuous on a cyclic tree: `m ↔ b` import each other and refer only to
+their own rules; every reference is `ResolvableNow` on every path, and the tree loads. -/
+example : (loadMain (fun ns => if ns = ["m"] then some ⟨[["b"]], [⟨"Main", [⟨none, "Main"⟩]⟩]⟩
+    else if ns = ["b"] then some ⟨[["m"]], [⟨"B", [⟨none, "B"⟩, ⟨some ["b"], "B"⟩]⟩]⟩ else none) 3 "m").toOption.isSome = true := by
+  decide +kernel
+
+/-- `C25_opened_exact` on `exFS`: the four connected files are opened, each once (evaluated above:
+`opened = [m, b, sub.c, sub.d]`), and a file nobody imports is not: -/
+example : (loadMain (fun ns => if ns = ["m"] then some ⟨[], [⟨"Main", []⟩]⟩
+    else if ns = ["other"] then some ⟨[], [⟨"X", []⟩]⟩ else none) 3 "m").toOption.map (·.opened) = some [["m"]] := by
+  decide +kernel
 
 end Imp
